@@ -2,7 +2,7 @@ SPECIFICATION TraceSpec
 CONSTANTS Addrs = {} Keys = {} Signers = {} OwnSigner = "OWN" MaxVer = 0 Datas = {} UData = {}
           Forged = FALSE Sizes = FALSE Multi = FALSE Base = 3600 Scale = 1000 MaxRot = 1000000 MaxClock = 0 InitCloser = 0 MaxCloser = 0
           MaxIssued = 1000000 PeerStore = TRUE Locals = TRUE EqReplaces = TRUE OtherTokens = {"foreign", "junk"} MaxStored = 1000000
-          KeepSecrets = 2 CleanAll = TRUE
+          KeepSecrets = 2 CleanAll = TRUE Validity = 600000 RotatePeriod = 0 ExpiredYields = FALSE
 INVARIANT TraceAccepted
 INVARIANT StoreNeedsOwnFreshToken
 INVARIANT Limits
